@@ -74,6 +74,11 @@ pub fn run(lane: &str, a: &Args, acc: &mut Acc) {
             vs_ = probe(&run, &mut crng, acc);
             found_at = run.trace.len();
         }
+        if lane == "c17" && vs_.is_empty() && h % 3 == 2 {
+            deep_queue(&mut run, 31 + (h % 5) * 25);
+            vs_ = probe(&run, &mut crng, acc);
+            found_at = run.trace.len();
+        }
         let mut g = Gen::new(hseed ^ 0x5a5a, profile_for(prop, &mut crng));
         let mut k = 0;
         while vs_.is_empty() && k < steps {
@@ -162,6 +167,25 @@ fn deep_index(run: &mut Run) {
         run.step(sc.submit(&users[0]));
     }
     run.model.count("c17:deep_index_scenario");
+}
+
+/// `n` transfers to the staker outstanding at once (nothing relayed): the queue listing is longer than any
+/// page size a reader is likely to have tried
+fn deep_queue(run: &mut Run, n: u64) {
+    let sc = run.sc.clone();
+    let u = sc.users[0].clone();
+    if run.obs.stopped {
+        let (n, l, r) = (run.obs.n, run.obs.l, run.obs.rewards);
+        run.step(sc.resume(n, l, r));
+    }
+    let amt = run.obs.min_stake().max(1_000).min(1_000_000_000_000_000_000_000_000);
+    for _ in 0..n {
+        run.step(Op::BankMint { addr: u.clone(), denom: sc.s.clone(), amount: amt });
+        run.step(sc.stake(&u, amt, None, None, None));
+    }
+    run.model.count("c17:deep_queue_scenario");
+    let len = run.obs.queue.len() as u64;
+    *run.model.counters.entry("c17:deep_queue_packets".to_string()).or_insert(0) += len;
 }
 
 /// admin -> new admin (7 days later), tracked in run.sc.admin
@@ -653,6 +677,29 @@ pub fn probe_c10(run: &Run, rng: &mut Rng, acc: &mut Acc) -> Vec<String> {
         let (u, qq) = (user.clone(), q.clone());
         let wait = obs_b.pending.next_time_s.saturating_sub(b.now_s());
         cases.push(("submit_batch", wait, Box::new(move |w: &mut World| w.exec(&u, &qq, &json!({"submit_batch": {}}).to_string(), &[]))));
+        // "all" operations: the halt holds for privileged senders as well (the admin, a configured monitor)
+        let mut privileged = vec![("submit_batch:admin", sc.admin.clone())];
+        if let Some(m) = obs_b.monitors().first() {
+            privileged.push(("submit_batch:monitor", m.clone()));
+        }
+        for (nm, who) in privileged {
+            let qq = q.clone();
+            cases.push((nm, wait, Box::new(move |w: &mut World| w.exec(&who, &qq, &json!({"submit_batch": {}}).to_string(), &[]))));
+        }
+    }
+    {
+        // a stake paid by the admin / a monitor
+        let mut privileged = vec![("liquid_stake:admin", sc.admin.clone())];
+        if let Some(m) = obs_b.monitors().first() {
+            privileged.push(("liquid_stake:monitor", m.clone()));
+        }
+        for (nm, who) in privileged {
+            let (qq, s, amt) = (q.clone(), sc.s.clone(), obs_b.min_stake().max(1000).min(1_000_000_000_000_000_000_000_000));
+            cases.push((nm, 0, Box::new(move |w: &mut World| {
+                w.mint_raw(&who, &s, amt);
+                w.exec(&who, &qq, &json!({"liquid_stake": {"mint_to": null, "transfer_to_native_chain": null, "expected_mint_amount": null}}).to_string(), &[(s.clone(), amt)])
+            })));
+        }
     }
     if let Some((bid, u)) = claim {
         let qq = q.clone();
